@@ -234,6 +234,17 @@ def sens_store_sites(f: FuncInfo):
     return out
 
 
+def _inlined_callers(m, h: FuncInfo) -> Set[str]:
+    """functions of h's module into which the load-time inliner expanded a call of h (the call itself is gone)"""
+    out = set()
+    for owner, helper in getattr(h.module.tree, "_pmlint_inlined", []):
+        if helper == h.name:
+            for g in _functions(m):
+                if g.module is h.module and g.name == owner:
+                    out.add(g.qual)
+    return out
+
+
 @rule("R-ACCUMULATE", floor=8, witness_min=1)
 def r_accumulate(ctx: RuleCtx, col: Collector):
     """Who may write `.sensitivity`: only the Signal classes and the seeding sites of the drivers
@@ -244,6 +255,23 @@ def r_accumulate(ctx: RuleCtx, col: Collector):
     sig = m.public_class("Signal")
     mma = m.public_class("MMA")
     drivers = {m.public_function("finite_difference").qual, m.public_function("minimize_oc").qual}
+    # ... and the private helpers of their module that only they call (a driver split into steps is still the driver)
+    work = [m.public_function("finite_difference"), m.public_function("minimize_oc")]
+    while work:
+        g0 = work.pop()
+        called = {x.func.id for x in ast.walk(g0.node) if isinstance(x, ast.Call) and isinstance(x.func, ast.Name)}
+        called |= {helper for owner, helper in getattr(g0.module.tree, "_pmlint_inlined", []) if owner == g0.name}
+        for nm_ in sorted(called):
+            if nm_.startswith("_"):
+                h = g0.module.functions.get(nm_)
+                if h is not None and h.qual not in drivers:
+                    callers = {f2.qual for f2 in _functions(m) if f2 is not h and any(
+                        isinstance(y, ast.Call) and isinstance(y.func, ast.Name) and y.func.id == h.name and f2.module is h.module
+                        for y in ast.walk(f2.node))}
+                    callers |= _inlined_callers(m, h)
+                    if callers and callers <= drivers | {g0.qual}:
+                        drivers.add(h.qual)
+                        work.append(h)
     for f in _functions(m):
         for st, tgt, base, sub in sens_store_sites(f):
             where = where_of(f)
@@ -665,21 +693,38 @@ def r_reset(ctx: RuleCtx, col: Collector):
                 rv = bool(v.value) if isinstance(v, ast.Constant) else (False if v is None else None)
                 for s_, _f in gat[nd]:
                     out.add((s_, rv))
-        if not any(isinstance(x, ast.Return) for x in ast.walk(g.node)) or any(
-                True for s_, _f in gat[gcfg.exit] if False):
+        if not any(isinstance(x, ast.Return) for x in ast.walk(g.node)):
             for s_, _f in gat[gcfg.exit]:
-                out.add((s_, False))
+                out.add((s_, False))            # falls off the end: returns None
         _summaries[key] = out
         return out
+
+    def test_outcomes(test: ast.AST, st):
+        """[(state after evaluating the test, truth of the test or None when open)]; None when no helper is involved"""
+        if isinstance(test, ast.UnaryOp) and isinstance(test.op, ast.Not):
+            sub = test_outcomes(test.operand, st)
+            return None if sub is None else [(s_, None if tv is None else not tv) for s_, tv in sub]
+        if isinstance(test, ast.BoolOp) and len(test.values) == 2:
+            # <plain condition> and/or <helper call>: the helper only runs when the first operand does not decide
+            first, second = test.values
+            sub = test_outcomes(second, st)
+            if sub is None or test_outcomes(first, st) is not None:
+                return None
+            short = (st, False) if isinstance(test.op, ast.And) else (st, True)
+            return [short] + sub
+        hc = helper_call(test)
+        if hc is None:
+            return None
+        g, neg = hc
+        return [(s_, (None if rv is None else (rv != neg))) for s_, rv in summary(g, st)] or [(st, None)]
 
     def step2(nd: Node, st):
         if isinstance(st, tuple):
             st = st[0]                      # the tag only lives on the edge out of the test
         if nd.kind == TEST and nd.ast is not None:
-            hc = helper_call(nd.ast)
-            if hc is not None:
-                g, neg = hc
-                return [(s_, (None if rv is None else (rv != neg))) for s_, rv in summary(g, st)] or [st]
+            outs = test_outcomes(nd.ast, st)
+            if outs is not None:
+                return outs
         return step(nd, st)
 
     def edge_ok2(nd, succ, lab, st):
